@@ -193,7 +193,7 @@ def run(ctx):
 def reader_text(c):
     """the exported text when it is within the reader theorem's hypotheses, else None"""
     st, txt = export(c)
-    if st == "ok" and not any(type(s).__name__ == "Comment" and "\n" in s.str for s in c.ir.statements):
+    if st == "ok":
         return txt
     return None
 
